@@ -4,4 +4,4 @@ NOT_APPLICABLE = []
 
 # Properties whose checks have been reviewed by the lead and run clean on the
 # unchanged tree; only these are claimed in MANIFEST.json.
-READY = ["C01", "C02", "C03", "C04", "C05", "C07", "C08", "C09", "C10", "C12", "C13", "C14", "C17", "C19"]
+READY = ["C01", "C02", "C03", "C04", "C05", "C06", "C07", "C08", "C09", "C10", "C11", "C12", "C13", "C14", "C15", "C16", "C17", "C18", "C19"]
